@@ -45,10 +45,16 @@ class Cls_%(m)d_%(c)d:
 '''
 
 
-def write_pkg(root, name, case):
+def write_pkg(root, name, case, namespace=False):
     pk = os.path.join(root, name)
     os.makedirs(pk)
-    open(os.path.join(pk, "__init__.py"), "w").close()
+    pk2 = pk
+    if namespace:
+        # an implicit namespace package (no __init__.py) whose modules are spread over two sys.path entries
+        pk2 = os.path.join(root + "2", name)
+        os.makedirs(pk2)
+    else:
+        open(os.path.join(pk, "__init__.py"), "w").close()
     for i, mod in enumerate(case["mods"], start=1):
         src = ['import sys', '_drv = sys.modules["__main__"]', '']
         if mod["imp"] == "fails":
@@ -76,7 +82,7 @@ def write_pkg(root, name, case):
                 src.append("from %s import Cls_%d_%d" % (lib, i, j))
             else:
                 src.append(body)
-        with open(os.path.join(pk, "mod%d.py" % i), "w") as f:
+        with open(os.path.join(pk if i % 2 else pk2, "mod%d.py" % i), "w") as f:
             f.write("\n".join(src) + "\n")
 
 
@@ -84,7 +90,7 @@ def run_case(root, idx, case):
     name = "vpkg_%d_%d" % (os.getpid(), idx)
     CALLS.clear()
     if case["pkg"] == "present":
-        write_pkg(root, name, case)
+        write_pkg(root, name, case, namespace=(idx % 4 == 3))
     importlib.invalidate_caches()
     DS.setFmsAttached(bool(case["fms"]))
     DS.notifyNewData()
@@ -107,6 +113,7 @@ def run_case(root, idx, case):
     for k in [k for k in sys.modules if k == name or k.startswith(name + ".") or k.startswith("vlib_" + name)]:
         del sys.modules[k]
     shutil.rmtree(os.path.join(root, name), ignore_errors=True)
+    shutil.rmtree(os.path.join(root + "2", name), ignore_errors=True)
     for fn in os.listdir(root):
         if fn.startswith("vlib_" + name):
             os.remove(os.path.join(root, fn))
@@ -121,11 +128,14 @@ def main():
     root = os.path.join(os.getcwd(), "pkgs")
     os.makedirs(root, exist_ok=True)
     sys.path.insert(0, root)
+    os.makedirs(root + "2", exist_ok=True)
+    sys.path.insert(1, root + "2")
     sys.dont_write_bytecode = True
     DS.setDsAttached(True)
     out = [run_case(root, i, c) for i, c in enumerate(json.load(open(a.cases)))]
     json.dump(out, open(a.out, "w"))
     shutil.rmtree(root, ignore_errors=True)
+    shutil.rmtree(root + "2", ignore_errors=True)
 
 
 if __name__ == "__main__":
